@@ -85,7 +85,7 @@ func (rf *ReportFeed) Status() []byte {
 	// displayed as non-RTCM messages.)
 	messageDisplay := "\nMessages\n\n"
 	for _, message := range rf.RecentMessages.GetMessages() {
-		messageDisplay += message.String() + "\n"
+		messageDisplay += Sanitise(message.String()) + "\n"
 	}
 
 	reportBody := fmt.Sprintf(reportFormat,
